@@ -73,6 +73,12 @@ def malformed_specs(chars):
     out["identifier_with_forbidden_character"] = z3.Or(
         rx.starts_with(rx.seq(XIDS, rx.star(XIDC), EMOJI), chars),
         rx.starts_with(EMOJI, chars))
+    # identifier continued by a character that Unicode's XID_Continue allows but OpenQASM 3 does not: its identifier characters are
+    # `_`, [0-9] and the general categories Lu Ll Lt Lm Lo Nl.  Below U+0400 the difference is U+00B7, the combining marks U+0300..U+036F
+    # and U+0387 (computed from the Unicode character database; higher code points are left out to stay independent of its version).
+    NONOQ3 = rx.cls(lambda e: z3.Or(e == 0xB7, z3.And(z3.UGE(e, 0x300), z3.ULE(e, 0x36F)), e == 0x387))
+    OQ3C = rx.cls(lambda e: z3.And(_in(e, "XID_Continue"), z3.Not(z3.Or(e == 0xB7, z3.And(z3.UGE(e, 0x300), z3.ULE(e, 0x36F)), e == 0x387))))
+    out["identifier_with_non_openqasm_character"] = rx.starts_with(rx.seq(XIDS, rx.star(OQ3C), NONOQ3), chars)
     return out
 
 
